@@ -124,6 +124,11 @@ impl Vm {
       self.fiber_queue.push_back(new_fiber);
       self.current_fun = current_fun;
       self.load_ip();
+    } else {
+      // the callee already ran to completion (a native or a class without
+      // an initializer) and left its result in place of the callee and its
+      // arguments. A launch produces no value so discard it
+      self.fiber.drop();
     }
 
     ExecutionSignal::Ok
